@@ -1,7 +1,7 @@
 (* C04 — each needed operand is evaluated once, left to right; unneeded ones never. Property theorems only (proofs: TraceFacts.v).
    eval_t is the extracted interpreter; its second component is the sequence of lookups and native calls with argument values. *)
 Require Import ZArith NArith Bool List Arith. Import ListNotations.
-Require Import F64 Dec Types Generic Lang TraceFacts Spec SpecFacts.
+Require Import F64 Dec Types Generic Lang TraceFacts Spec SpecFacts GenInterp InterpFacts.
 Notation res_of E e := (fst (eval_t E e)).
 Notation tr_of E e := (snd (eval_t E e)).
 
@@ -52,3 +52,13 @@ Proof. exact variable_is_one_lookup. Qed.
 Theorem C04_literal_is_silent : forall E v, tr_of E (ELit v) = [].
 Proof. exact literal_is_silent. Qed.
 Print Assumptions C04_needed_right_once. Print Assumptions C04_conditional_one_branch. Print Assumptions C04_no_call_after_failing_argument.
+
+(* tie (a): the evaluation skeleton the trace theorems are about - which operand is evaluated when - is the one in the source today: the outer arms of fn binary
+   (and / or decide on the left operand alone; every other operator evaluates the right operand next), fn boolean, fn ternary and get_values, regenerated on every run *)
+Theorem C04_evaluation_skeleton_is_the_codes :
+  gen_binary_outer = [(Some And, POk, GAndFull); (Some And, PUndef, GConstFalse); (Some Or, POk, GOrFull); (Some Or, PUndef, GOrOfRight); (None, POk, GStrict);
+                      (Some Equal, PUndef, GEqUndefLeft); (Some NotEqual, PUndef, GNeUndefLeft); (None, PErr, GErrLeft)] /\
+  gen_boolean_as_modelled = true /\ gen_ternary_as_modelled = true /\ gen_get_values_as_modelled = true.
+Proof. repeat split; reflexivity. Qed.
+Theorem C04_binary_is_the_table : forall o rl rr, Some (bin_combine o rl rr) = tab_binary o rl rr.
+Proof. exact bin_combine_is_the_table. Qed.
